@@ -5,7 +5,15 @@ wt=/tmp/recheck-$s
 git -C /repo worktree add -q --detach $wt $(git -C /repo rev-parse HEAD) || exit 9
 base=$(python3 -c "import json;print(json.load(open('/verif/seeded/$s/meta.json')).get('base','').split()[0])" 2>/dev/null)
 [ -n "$base" ] && git -C $wt checkout -q --detach $base
-if git -C $wt apply /verif/seeded/$s/patch.diff 2>/dev/null; then
+ok=0
+git -C $wt apply /verif/seeded/$s/patch.diff 2>/dev/null && ok=1
+if [ $ok = 0 ] && [ -z "$base" ] && [ -f /verif/seeded/$s/patch-rebased.diff ]; then
+  git -C $wt apply /verif/seeded/$s/patch-rebased.diff 2>/dev/null && ok=1
+fi
+if [ $ok = 0 ]; then
+  git -C $wt apply --3way /verif/seeded/$s/patch.diff 2>/dev/null && ok=1 || { git -C $wt reset -q --hard; }
+fi
+if [ $ok = 1 ]; then
   for p in $props; do
     o=$(VF_NO_EVIDENCE=1 VERIF_REPO=$wt /verif/check $p --tier ${TIER:-quick} 2>&1); rc=$?
     echo "$s vs $p: exit=$rc $(echo "$o" | grep -E 'witness\[' | head -1 | cut -c1-200)"
